@@ -1,4 +1,4 @@
-import TcheranVerif.Model.UciCtl
+import TcheranVerif.Proofs.UciCtlFinite
 /-!
 # C05 — no command history can hang the engine (theorems over the controller model)
 
@@ -9,21 +9,111 @@ interleaving by induction on the run.
 namespace Tcheran.Props.C05
 open Tcheran.UciCtl
 
-theorem inv_init : Inv init = true := by decide
+theorem inv_init : Inv init = true := UciCtlFinite.inv_init
+theorem inv_preserved_all : invPreserved = true := UciCtlFinite.inv_preserved_all
+theorem no_deadlock_all : noDeadlock = true := UciCtlFinite.no_deadlock_all
+theorem thread_steps_decrease_all : threadStepsDecrease = true := UciCtlFinite.thread_steps_decrease_all
+theorem blocked_without_threads_resumes_all : blockedWithNoThreadsResumes = true :=
+  UciCtlFinite.blocked_without_threads_resumes_all
+theorem isready_always_served_all : isreadyAlwaysServed = true := UciCtlFinite.isready_always_served_all
+theorem go_answered_all : goAnswered = true := UciCtlFinite.go_answered_all
 
-theorem inv_preserved_all : invPreserved = true := by decide +kernel
+/-! ### lifting the finite decisions to every run -/
 
-theorem no_deadlock_all : noDeadlock = true := by decide +kernel
+theorem mem_allThreads (t : Option Thread) : t ∈ allThreads := by
+  cases t with
+  | none => simp [allThreads]
+  | some th =>
+    cases th with
+    | mk pc i f => cases pc <;> cases i <;> cases f <;> simp [allThreads, allPC, allBool]
 
-theorem thread_steps_decrease_all : threadStepsDecrease = true := by decide +kernel
+theorem mem_allStates (s : State) : s ∈ allStates := by
+  cases s with
+  | mk m c l a b =>
+    unfold allStates
+    simp only [List.mem_flatMap, List.mem_map]
+    refine ⟨m, by cases m <;> simp [allMain], c, by cases c <;> simp [allTarget], l, by cases l <;> simp [allBool],
+      a, mem_allThreads a, b, mem_allThreads b, rfl⟩
 
-theorem blocked_without_threads_resumes_all : blockedWithNoThreadsResumes = true := by decide +kernel
+theorem mem_allEvents (e : Event) : e ∈ allEvents := by
+  cases e with
+  | cmd c => cases c <;> simp [allEvents, allCmds]
+  | thread i => cases i <;> simp [allEvents, allCmds]
+  | mainResume => simp [allEvents, allCmds]
 
-theorem isready_always_served_all : isreadyAlwaysServed = true := by decide +kernel
+/-- one step preserves the invariant, for every state and event -/
+theorem inv_step (s s' : State) (e : Event) (hi : Inv s = true) (hs : step s e = some s') : Inv s' = true := by
+  have h := List.all_eq_true.1 inv_preserved_all s (mem_allStates s)
+  rw [hi] at h
+  simp only [Bool.not_true, Bool.false_or] at h
+  have h2 := List.all_eq_true.1 h e (mem_allEvents e)
+  rw [hs] at h2
+  exact h2
 
-theorem go_answered_all : goAnswered = true := by decide +kernel
+/-- a run: any interleaving of GUI commands (conforming ones only are enabled), thread steps and
+    resumptions of the main thread -/
+def run : State → List Event → Option State
+  | s, [] => some s
+  | s, e :: es => (step s e).bind (fun s' => run s' es)
+
+theorem inv_run_from (es : List Event) : ∀ (s0 : State), Inv s0 = true → ∀ s, run s0 es = some s → Inv s = true := by
+  induction es with
+  | nil =>
+    intro s0 h0 s hr
+    simp only [run, Option.some.injEq] at hr
+    rw [← hr]; exact h0
+  | cons e es ih =>
+    intro s0 h0 s hr
+    simp only [run] at hr
+    cases hst : step s0 e with
+    | none => rw [hst] at hr; cases hr
+    | some s1 =>
+      rw [hst] at hr
+      exact ih s1 (inv_step s0 s1 e h0 hst) s hr
+
+/-- **the invariant holds in every state of every run** (every history, every interleaving) -/
+theorem inv_run (es : List Event) (s : State) (h : run init es = some s) : Inv s = true :=
+  inv_run_from es init inv_init s h
+
+/-- **no deadlock in any reachable state**: whenever the main thread is blocked it can either resume
+    or a search thread can take a step -/
+theorem no_deadlock_run (es : List Event) (s : State) (h : run init es = some s)
+    (hb : s.main = .waitLatch ∨ s.main = .waitMutex) : (mainResume s).isSome = true ∨ someThreadEnabled s = true := by
+  have hi := inv_run es s h
+  have hd := List.all_eq_true.1 no_deadlock_all s (mem_allStates s)
+  rw [hi] at hd
+  simp only [Bool.not_true, Bool.false_or] at hd
+  rcases hb with hb | hb <;> rw [hb] at hd <;> simpa using hd
+
+/-- **progress measure**: every thread step strictly decreases `rank` and leaves the main thread's
+    state alone, so a blocked main thread is released after at most `rank s ≤ 8` thread steps -/
+theorem thread_step_decreases (s s' : State) (i : Bool) (h : threadStep s i = some s') :
+    rank s' < rank s ∧ s'.main = s.main := by
+  have hd := List.all_eq_true.1 thread_steps_decrease_all s (mem_allStates s)
+  have hi := List.all_eq_true.1 hd i (by cases i <;> simp [allBool])
+  rw [h] at hi
+  simpa using hi
+
+/-- **isready is always served**: in every reachable state where the main thread is idle, `isready`,
+    `stop` and `quit` are accepted at once -/
+theorem isready_served_run (es : List Event) (s : State) (h : run init es = some s) (hidle : s.main = .idle) :
+    (cmdStep s .isready).isSome = true ∧ (cmdStep s .quit).isSome = true ∧ (cmdStep s .stop).isSome = true := by
+  have hi := inv_run es s h
+  have hd := List.all_eq_true.1 isready_always_served_all s (mem_allStates s)
+  rw [hi, hidle] at hd
+  have := by simpa using hd
+  exact ⟨this.1.1, this.1.2, this.2⟩
 
 end Tcheran.Props.C05
+#print axioms Tcheran.Props.C05.mem_allThreads
+#print axioms Tcheran.Props.C05.mem_allStates
+#print axioms Tcheran.Props.C05.mem_allEvents
+#print axioms Tcheran.Props.C05.inv_step
+#print axioms Tcheran.Props.C05.inv_run_from
+#print axioms Tcheran.Props.C05.inv_run
+#print axioms Tcheran.Props.C05.no_deadlock_run
+#print axioms Tcheran.Props.C05.thread_step_decreases
+#print axioms Tcheran.Props.C05.isready_served_run
 #print axioms Tcheran.Props.C05.inv_init
 #print axioms Tcheran.Props.C05.inv_preserved_all
 #print axioms Tcheran.Props.C05.no_deadlock_all
